@@ -431,3 +431,43 @@ def blankown(pid):
         res.floor("blank-entry stores", n, ctx.table("floors").get("blankown_sites", 0))
         return res
     return run
+
+
+# ---------------------------------------------------------------------------
+def parenttype(pid):
+    """R-PARENT: only storages have children.  Every creation path tests that the entry it is about to give a
+    child to is not a stream, either at the API call site or inside insert_dir_entry before anything is allocated
+    (defect D18: a child below a stream produces a file no reader accepts)."""
+    def run(ctx):
+        res = RuleResult("R-PARENT(%s)" % pid, "every call that inserts a directory entry below a parent is dominated by a test that the parent is not a stream (at the call site, or inside insert_dir_entry before allocation)")
+        n = 0
+        inner = ctx.fx.fns.get("internal::directory::Directory::<F>::insert_dir_entry")
+        inner_ok = False
+        if inner is not None:
+            v = view(ctx, inner)
+            g = _guards(ctx, inner)
+            for bb, c in v.calls.items():
+                if c.name.endswith("allocate_dir_entry"):
+                    if any(re.search(r"dir_entry\(param:self,param:\w+\)\.obj_type is (not ObjType::Stream|ObjType::(Storage|Root))$", a) for a in g.atoms_at(("t", bb))):
+                        inner_ok = True
+        for f in ctx.fx.fns.values():
+            if f.path.startswith("internal::"):
+                continue
+            v = view(ctx, f)
+            pr = None
+            for bb, c in sorted(v.calls.items()):
+                if not c.name.endswith("MiniAllocator::<F>::insert_dir_entry") or len(c.term["args"]) < 2:
+                    continue
+                n += 1
+                pr = pr or Prov(f)
+                parent = pr.operand(c.term["args"][1])
+                atoms = _guards(ctx, f).atoms_at(("t", bb))
+                rx = re.compile(r"dir_entry\(.*,%s\)\.obj_type is (not ObjType::Stream|ObjType::(Storage|Root))$" % re.escape(parent))
+                key = "R-PARENT/%s" % f.path
+                if inner_ok or any(rx.search(a) for a in atoms):
+                    res.ok({"function": f.path, "line": c.line, "parent": parent[:80], "tested": "inside insert_dir_entry" if inner_ok else "at the call site"}, nontrivial=True)
+                else:
+                    res.fail(Finding(res.rule, key + "/parent-type-not-tested", "insert_dir_entry is called with parent %s, which no dominating test shows not to be a stream: creating an object below a stream gives the stream a child and the file can no longer be opened" % parent[:100], f, c.term["span"]))
+        res.floor("creation call sites", n, ctx.table("floors").get("parent_sites", 0))
+        return res
+    return run
